@@ -34,7 +34,7 @@ def owner_keyspace_id(ex, p, tree_obj):
     ti, ii = names.index('tree'), names.index('id')
     roots = [c.val for c in p.st.frames[0].locals.values()]
     for r in roots:
-        for o in find_objs(r, lambda o: 'KeyspaceInner' in o.ty):
+        for o in find_objs(r, lambda o: o.ty.split('<')[0].endswith('KeyspaceInner')):
             c = o.fields.get(ti)
             if c is not None and (c.val is tree_obj or (isinstance(c.val, EnumV) and c.val.data.get('as_obj') is tree_obj)):
                 ic = o.fields.get(ii)
